@@ -59,6 +59,10 @@ def jobs(tier, seed):
         if rng.random() < 0.5:
             terms.append({k: -v for k, v in terms[0].items()})
         out.append({"kind": "empty", "terms": terms})
+    # lists without any variable (what a cancelling rename or a refinement to a constant constraint leaves behind): the
+    # rows read 0 <= c, the list is empty iff some c is negative
+    for terms in ([{}], [{}, {}], [{}, {"x": 1}], [{"x": 1}, {}, {"x": -1}]):
+        out.append({"kind": "empty", "terms": terms})
     # emptiness asked in sequence for two lists that agree in their first four significant digits (one feasible,
     # one infeasible by 2e-3): the answers must not depend on what was asked before
     for big in (1000, 2048):
